@@ -177,7 +177,7 @@ class Check:
             from tools import extract
             extract.main()
         # 2. build
-        rc, log, dt = LP.build()
+        rc, log, dt = LP.build(["RockitModel.Props." + self.pid])
         if rc != 0:
             proof_ok = False
             proof_log.append("lake build failed:\n" + log[-4000:])
